@@ -105,7 +105,7 @@ func buildKinds() []FieldKind {
 	add("int8", "int", int8(0), Val{"nonzero", rv(int8(-8))})
 	add("uint16", "int", uint16(0), Val{"nonzero", rv(uint16(65535))})
 	add("int64", "int", int64(0), Val{"nonzero", rv(int64(1) << 40)})
-	add("float32", "float", float32(0), Val{"nonzero", rv(float32(1.5))})
+	add("float32", "float", float32(0), Val{"nonzero", rv(float32(0.1))}) // not short in 64-bit digits: a widening slip shows (0.10000000149011612)
 	add("float64", "float", float64(0), Val{"nonzero", rv(float64(0.1234567890123))}) // not a float32: a 32-bit formatting slip shows
 	add("string", "string", "", Val{"nonzero", rv("s")})
 	add("bytes", "bytes", []byte(nil),
